@@ -179,6 +179,12 @@ def compiled_with_own_config(ctx, rule):
         ctx.check(ok, rule, "MasterOfPuppets.__init__",
                   f"config loaded at events {loads[:1]}..{loads[-1:]}, regex produced at {prod}, constructor ends at {mark}",
                   "the constructor loads the rule's config and then produces the regex, once; matching reuses that regex")
+        if prod:
+            snap = getattr(ev[prod[0]], "config", {})
+            flags = (snap.get("MnemonicsFullMatch"), snap.get("OperandsFullMatch"))
+            ctx.check(flags == ("True", "False"), rule, "MasterOfPuppets.__init__ (config in force when the regex is produced)",
+                      f"MnemonicsFullMatch={flags[0]} OperandsFullMatch={flags[1]} for a rule with mnemonics-full-match: true",
+                      "when the regex is produced the singleton holds the rule's own full-match flags")
     return n
 
 
